@@ -151,21 +151,32 @@ def run(ctx, rep):
     common.fair_gate(ctx, rep, RF, 'C11.R5')
 
 
-def formulas(ops, arity, depth, letters=('p', 'q')):
-    level = [('leaf', x) for x in letters]
-    allf = list(level)
+def formulas(ops, arity, depth, letters=('p', 'q'), cap=6000):
+    "formulas up to a nesting depth, generated breadth first and *lazily*, so the cap bounds the work as well as the result"
+    allf = [('leaf', x) for x in letters]
+    seen = set(allf)
     for _ in range(depth):
-        new = []
-        for op in ops:
-            if arity[op] == 1:
-                new += [('op', op, (a,)) for a in allf]
-            else:
-                new += [('op', op, (a, b)) for a in allf for b in allf]
-        seen = set(allf)
-        allf += [f for f in new if f not in seen]
-        if len(allf) > 6000:
-            allf = allf[:6000]
-            break
+        base = list(allf)
+
+        def candidates():
+            for op in ops:
+                if arity[op] == 1:
+                    for a in base:
+                        yield ('op', op, (a,))
+            # binary shapes in order of total size, small operands first
+            for i, a in enumerate(base):
+                for b in base[:i + 1]:
+                    for op in ops:
+                        if arity[op] != 1:
+                            yield ('op', op, (a, b))
+                            if a is not b:
+                                yield ('op', op, (b, a))
+        for f in candidates():
+            if f not in seen:
+                seen.add(f)
+                allf.append(f)
+                if len(allf) >= cap:
+                    return allf
     return allf
 
 
